@@ -528,6 +528,8 @@ def check(ctx):
     regen = c03gen.regenerate()
     ctx.stats["regenerated"] = {k: (v if not isinstance(v, list) else [list(x) for x in v]) for k, v in regen.items()}
     proofs_ok, out = common.proof_side(ctx, PROPS_MODULE, PROPS_FILE, extra_names=TABLE_OBLIGATIONS)
+    # cross-model links: Lang.Value agrees with the C04 value layer on the common fragment (notes/XL-design.md)
+    common.audit_more(ctx, common.XLINKS_MODULE, common.XLINKS_FILE, out, "Lang.Value and VMOps no longer agree")
     if not ctx.stats.get("lake_build_ok", True):
         # say which theorem / table obligation stopped checking (the generic entry only carries the log's tail)
         errs = [l.strip() for l in out.split("\n") if l.startswith("error:") and ".lean" in l]
